@@ -45,7 +45,8 @@ pub fn run(case: &Value, ctx: &Ctx) -> Outcome {
     let key = case.to_string();
     let id = hash(&key);
     let extra = id % 3 == 0;
-    let text = gen::vcf_text(&cols, &recs, extra);
+    // one call set in five: the header does not declare GT (what a reader does with the records may not depend on that)
+    let text = if id % 5 == 3 { gen::vcf_text_undeclared_gt(&cols, &recs, extra) } else { gen::vcf_text(&cols, &recs, extra) };
     let path = cli::scratch(ctx, &format!("create_{id:016x}.vcf"), text.as_bytes());
 
     out.tag(format!("outcome:{outcome}/{}", diag["kind"].as_str().unwrap_or("")));
@@ -270,6 +271,19 @@ pub fn run(case: &Value, ctx: &Ctx) -> Outcome {
     let a: Vec<&str> = args.iter().map(|s| s.as_str()).collect();
     let r = cli::sfs(ctx, &a, if via_stdin { Some(text.as_bytes()) } else { None });
     check_cli(&mut out, case, &r, &args, precision, if quiet { "vcf-quiet" } else { "vcf" }, verbose);
+
+    // the sample list need not be a regular file: `-S <(cut -f1,2 panel.tsv)` hands the tool a pipe
+    if let Some(sp) = &sfile {
+        if id % 3 == 2 {
+            let fifo = format!("{}/files/create_{id:016x}.samples.fifo", ctx.work);
+            let fargs: Vec<String> = args.iter().map(|x| if x == sp { fifo.clone() } else { x.clone() }).collect();
+            let fa: Vec<&str> = fargs.iter().map(|s| s.as_str()).collect();
+            match cli::sfs_side_fifo(ctx, &fa, &fifo, case["samples_file"].as_str().unwrap().as_bytes(), if via_stdin { Some(text.as_bytes()) } else { None }) {
+                Some(rf) => check_cli(&mut out, case, &rf, &fargs, precision, if quiet { "samples-pipe-quiet" } else { "samples-pipe" }, verbose),
+                None => out.tag("fifo-unavailable".to_string()),
+            }
+        }
+    }
 
     // the same records as BCF (raw or BGZF-compressed), when the check asks for it
     let also = std::env::var("CREATE_ALSO").unwrap_or_default();
